@@ -4,6 +4,7 @@ use vstd::prelude::*;
 use vstd::std_specs::ops::*;
 use vstd::std_specs::cmp::*;
 use std::mem;
+use std::mem::replace;
 use std::fmt;
 verus! {
 global layout usize is size == 8;
